@@ -48,6 +48,7 @@ func (t *tcpConn) Write(b []byte) (int, error) {
 }
 
 func (t *tcpConn) Read(b []byte) (int, error) {
+	verifYield("read", nil)
 	if t.timeout > 0 {
 		err := t.conn.SetReadDeadline(time.Now().Add(t.timeout))
 		check(err)
